@@ -32,7 +32,7 @@ ASSUMPTIONS = [
     'errstate (the statement scopes the reactions profile only)',
 ]
 ANCHORS = ['ErrorProfile.test', 'ErrorProfile._handle_error', 'seterr', 'geterr', 'seterrcall', 'geterrcall', 'errcheck', 'errstate']
-REQUIRED = ['refused_calls_naming_all', 'steps_checked', 'errstate_decorated_calls',
+REQUIRED = ['two_kind_reactions_checked', 'refused_calls_naming_all', 'steps_checked', 'errstate_decorated_calls',
             'errstate_exception_exits', 'refused_calls',
             'reaction_raise', 'reaction_ignore', 'reaction_warn',
             'reaction_print', 'reaction_call', 'reaction_clean_inputs']
@@ -524,6 +524,100 @@ def run_reaction(ctx, r, index):
     ctx.case(desc, trigger)
 
 
+PAIRS = [
+    (('empty', 'sampdup'), lambda: dict(data=np.empty((0, 2)),
+                                        observation_ids=[],
+                                        sample_ids=['a', 'a'])),
+    (('empty', 'obsdup'), lambda: dict(data=np.empty((2, 0)),
+                                       observation_ids=['a', 'a'],
+                                       sample_ids=[])),
+    (('obsdup', 'sampdup'), lambda: dict(data=np.array([[1., 2.], [3., 4.]]),
+                                         observation_ids=['a', 'a'],
+                                         sample_ids=['b', 'b'])),
+    (('obsmdsize', 'sampmdsize'), lambda: dict(
+        data=np.array([[1., 2.], [3., 4.]]), observation_ids=['o1', 'o2'],
+        sample_ids=['s1', 's2'], observation_metadata=[{'a': 1}] * 3,
+        sample_metadata=[{'a': 1}])),
+    (('obssize', 'sampsize'), lambda: dict(
+        data=np.array([[1., 2.], [3., 4.]]),
+        observation_ids=['o1', 'o2', 'o3'], sample_ids=['s1'])),
+]
+
+
+def run_two_kinds(ctx, r, index):
+    """One construction that offends two kinds at once: every kind gets its
+    own configured reaction; a reaction that does not raise (warn, print,
+    call, ignore) for one kind does not excuse the other."""
+    err = ctx.err
+    TableException = ctx.TableException
+    (ka, kb), mk = PAIRS[index % len(PAIRS)]
+    sa = STATES[(index // len(PAIRS)) % 5]
+    sb = STATES[(index // (5 * len(PAIRS))) % 5]
+    desc = {'two_kinds': [[ka, sa], [kb, sb]]}
+    _reset(err)
+    calls = []
+    try:
+        prof = {k: 'ignore' for k in KINDS}
+        prof.update({ka: sa, kb: sb})
+        err.seterr(**prof)
+        for k in KINDS:
+            err.seterrcall(k, (lambda kk: lambda t: calls.append(kk))(k))
+        sys.stdout.flush()
+        pos = os.fstat(1).st_size if ctx.fd1_file else 0
+        raised = None
+        with warnings.catch_warnings(record=True) as w:
+            warnings.simplefilter('always')
+            try:
+                ctx.biom.Table(**mk())
+            except TableException as e:
+                raised = str(e)
+        sys.stdout.flush()
+        printed = ''
+        if ctx.fd1_file:
+            with open(ctx.fd1_file) as f:
+                f.seek(pos)
+                printed = f.read()
+        wmsgs = [str(x.message) for x in w if str(x.message) in MSG.values()]
+        states = {ka: sa, kb: sb}
+        raising = [k for k in (ka, kb) if states[k] == 'raise']
+        problems = []
+        if raising:
+            if raised is None:
+                problems.append('nothing was raised although %s is set to '
+                                'raise' % raising)
+            elif raised not in [MSG[k] for k in raising]:
+                problems.append('raised %r, expected the message of %s' %
+                                (raised, raising))
+        elif raised is not None:
+            problems.append('raised %r although no offended kind is set to '
+                            'raise' % raised)
+        for k in (ka, kb):
+            n_w = wmsgs.count(MSG[k])
+            n_p = printed.count(MSG[k] + '\n') if ctx.fd1_file else None
+            n_c = calls.count(k)
+            want = {'warn': (1, 0, 0), 'print': (0, 1, 0),
+                    'call': (0, 0, 1)}.get(states[k], (0, 0, 0))
+            got = (n_w, n_p if n_p is not None else want[1], n_c)
+            if raising and states[k] != 'raise':
+                # may or may not have been reached before the raise
+                if any(g > x for g, x in zip(got, want)):
+                    problems.append('%s (%s): reactions %r exceed %r' %
+                                    (k, states[k], got, want))
+            elif got != want:
+                problems.append('%s (%s): warnings/prints/callbacks %r, '
+                                'expected %r' % (k, states[k], got, want))
+        other = [c for c in calls if c not in (ka, kb)]
+        if other:
+            problems.append('callbacks of kinds not offended: %r' % other)
+        if problems:
+            raise Violation('C20/two-kinds-reaction', '%s; case=%r' %
+                            ('; '.join(problems), desc))
+        ctx.count('two_kind_reactions_checked')
+    finally:
+        _reset(err)
+    ctx.case(desc, True)
+
+
 # ------------------------------------------------------------------- driver
 def calibrate_messages(ctx):
     """The text of each kind's message is not part of the property; what
@@ -581,7 +675,11 @@ def run_case(ctx, index):
         ctx.count('programs_random')
     else:
         r = ctx.rng(index)
-        run_reaction(ctx, r, index - p['nexh'] - p['nrand'])
+        k = index - p['nexh'] - p['nrand']
+        if k % 8 == 5:
+            run_two_kinds(ctx, r, k // 8)
+        else:
+            run_reaction(ctx, r, k)
         return
     try:
         run_program(ctx, prog)
